@@ -184,6 +184,10 @@ func (g *Syn) Target(d int) *ir.Node {
 // call-level-or-tighter (others get parenthesised by the unparser).
 func (g *Syn) postfixable(d int) *ir.Node {
 	r := g.R
+	if r.Intn(10, "numrecv") == 0 {
+		// a number literal of any shape as receiver / callee: `0x1F.toString`, `1 .x`, `2.5.y`
+		return ir.N(ir.Num, r.NumText())
+	}
 	if d <= 0 || r.Intn(3, "pf") == 0 {
 		return ir.N(ir.Ident, r.Ident())
 	}
